@@ -33,6 +33,7 @@ func init() {
 			"Plus a metamorphic family: every data record of every corpus file that decodes (and of the shared streams) is decoded again alone (file_id + its own definition + the record) and must give the same message as inside the file, except for fields that legitimately depend on earlier records. Oracle: Decode succeeds, probe field = model denotation, all other fields invalid (component destinations excluded, they belong to C18), neighbouring messages unchanged. distinct = distinct (entry, definition, order, payload, context) cases whose decoded probe value was compared",
 		Assumptions: []string{"compat set is narrower than what validateFieldDef admits; no verdict from rejections outside it", "narrow-type invalid sentinels and +90 degrees latitude are excluded from value demands", "messages no file container holds are not observable through the public API and are not covered"},
 		Run:         runC02,
+		Sub:         func(args []string) { tzSub(args) },
 		Replay: func(raw json.RawMessage) (string, error) {
 			if s, ok, err := mixReplay(raw); ok {
 				return s, err
@@ -220,6 +221,7 @@ func runC02(w *vx.W) {
 	}
 	mixFamily(w, mixLen)
 	c10MixChains(w) // the same words as members of a chain: values and routing must not depend on an earlier member
+	tzFamily(w, "C02")
 	// developer fields in every number from 1 to 255 (sizes 1 and 3), on a known and on an unknown message, between
 	// records of another local type: skipped without disturbing anything (judged by the reference decoder)
 	for n := 1; n <= 255; n++ {
